@@ -11,8 +11,9 @@ PREFIXES = ["10.1.0.0/24", "10.2.0.0/24", "10.3.0.0/16", "10.1.0.0/25"]
 
 
 class Peer:
-    def __init__(self, name, addr, asn, kind):
+    def __init__(self, name, addr, asn, kind, sendmax=0):
         self.name, self.addr, self.asn, self.kind = name, addr, asn, kind   # kind: ebgp | ibgp | rr
+        self.sendmax = sendmax   # ADD-PATH send-max towards this peer (0 = no ADD-PATH)
         self.up = False
         self.adjin = {}          # prefix -> (attrs, rejected)
 
@@ -46,7 +47,7 @@ class Spec:
     def __init__(self, peers):
         self.peers = {}
         for p in peers:
-            q = Peer(p.name, p.addr, p.asn, p.kind)
+            q = Peer(p.name, p.addr, p.asn, p.kind, p.sendmax)
             self.peers[q.name] = q
         self.local = {}          # prefix -> attrs (API-injected)
 
@@ -226,7 +227,8 @@ def parse_obs(o):
             res["peers"][it[1]] = d
         elif it[0] == "rib":
             for e in it[1:]:
-                res["rib"][e[0]] = [dict(src=p[0], pid=p[1], best=p[2] == "1", stale=p[3] == "1", attrs=p[4] if len(p) > 4 else "") for p in e[1:]]
+                res["rib"][e[0]] = [dict(src=p[0], pid=p[1], best=p[2] == "1", stale=p[3] == "1", attrs=p[4] if len(p) > 4 else "",
+                                        lid=int(p[6]) if len(p) > 6 else 0) for p in e[1:]]
         elif it[0] == "adjin":
             res["adjin"][it[1]] = ["%s %s" % (e[0], e[3] if len(e) > 3 else "") for e in it[2:]]
             res["adjin_raw"][it[1]] = [(e[0].split("#")[0], e[1] == "1", e[3] if len(e) > 3 else "") for e in it[2:]]
@@ -262,13 +264,17 @@ def gen_attrs(rng, peer):
     return a
 
 
-def gen_scenario(rng, nsteps=None, kinds=("ebgp", "ibgp", "rr")):
+def gen_scenario(rng, nsteps=None, kinds=("ebgp", "ibgp", "rr"), addpath=0.0):
     npeers = rng.choice([2, 3, 3, 4])
     peers = []
     for i in range(npeers):
         kind = rng.choice(kinds)
         asn = LOCAL_AS if kind != "ebgp" else rng.choice([65001, 65002, 65003])
         peers.append(Peer("p%d" % i, "10.0.0.%d" % (i + 1), asn, kind))
+    if rng.random() < addpath:
+        # one more peer that negotiated ADD-PATH (we send several paths per prefix, up to send-max)
+        kind = rng.choice(kinds)
+        peers.append(Peer("p%d" % npeers, "10.0.0.%d" % (npeers + 1), LOCAL_AS if kind != "ebgp" else 65009, kind, sendmax=rng.choice([1, 2, 2, 3])))
     up = {p.name: False for p in peers}
     alive = {p.name: p for p in peers}
     local = {}
@@ -315,12 +321,76 @@ def gen_scenario(rng, nsteps=None, kinds=("ebgp", "ibgp", "rr")):
     return {"peers": peers, "events": ev}
 
 
+def gen_ap_churn(rng, tight=None):
+    """ADD-PATH stress: one or two prefixes, three or four sources, one ADD-PATH peer with a small send-max; mostly
+    announcements and withdrawals, so that paths are held back, promoted, and path identifiers recycled."""
+    if tight is None:
+        tight = rng.random() < 0.5
+    nsrc = rng.choice([3, 3, 4])
+    peers = []
+    for i in range(nsrc):
+        kind = rng.choice(["ebgp", "ebgp", "ibgp", "rr"]) if not tight else "ebgp"
+        peers.append(Peer("p%d" % i, "10.0.0.%d" % (i + 1), LOCAL_AS if kind != "ebgp" else 65001 + i, kind))
+    kind = rng.choice(["ebgp", "ebgp", "ibgp", "rr"]) if not tight else "ebgp"
+    ap = Peer("p%d" % nsrc, "10.0.0.%d" % (nsrc + 1), LOCAL_AS if kind != "ebgp" else 65009, kind, sendmax=rng.choice([1, 1, 2, 2, 3]) if not tight else rng.choice([1, 1, 2]))
+    peers.append(ap)
+    pool = rng.sample(PREFIXES, rng.choice([1, 1, 2]) if not tight else 1)
+    ev = [("up", p.name) for p in peers]
+    if rng.random() < 0.3:
+        ev.remove(("up", ap.name))
+    up = {p.name: ("up", p.name) in ev for p in peers}
+    local = {}
+    for _ in range(rng.choice([10, 20, 30, 40])):
+        r = rng.random()
+        p = rng.choice(peers)
+        if tight:
+            r = r * 0.75 if rng.random() < 0.93 else 0.95     # announcements and withdrawals only, a few observations
+        if r < 0.42:
+            if up[p.name]:
+                a = gen_attrs(rng, p)
+                if rng.random() < 0.7:
+                    a["orig"], a["cl"] = None, []
+                    if LOCAL_AS in a["aspath"]:
+                        a["aspath"] = [x for x in a["aspath"] if x != LOCAL_AS]
+                if rng.random() < 0.15:
+                    a["aspath"] = a["aspath"] + [ap.asn]     # not exportable to the ADD-PATH peer when it is eBGP
+                ev.append(("ann", p.name, rng.choice(pool), a))
+        elif r < 0.75:
+            if up[p.name]:
+                ev.append(("wd", p.name, rng.choice(pool)))
+        elif r < 0.80:
+            if up[p.name]:
+                ev.append(("close", p.name))
+                up[p.name] = False
+            else:
+                ev.append(("up", p.name))
+                up[p.name] = True
+        elif r < 0.86:
+            pf = rng.choice(pool)
+            if pf in local and rng.random() < 0.6:
+                ev.append(("apidel", pf, local.pop(pf)))
+            else:
+                a = gen_attrs(rng, None)
+                ev.append(("apiadd", pf, a))
+                local[pf] = a
+        elif r < 0.9:
+            ev.append(("sleep", 1))
+        else:
+            ev.append(("obs",))
+    if not up[ap.name]:
+        ev.append(("up", ap.name))
+    ev.append(("obs",))
+    return {"peers": peers, "events": ev}
+
+
 def sim_line(sc):
     steps = []
     byname = {p.name: p for p in sc["peers"]}
     for e in sc["events"]:
         k = e[0]
-        if k in ("up", "close"):
+        if k == "up":
+            steps.append("(up %s%s)" % (e[1], " ap=1" if byname[e[1]].sendmax else ""))
+        elif k == "close":
             steps.append("(%s %s)" % (k, e[1]))
         elif k == "del":
             steps.append("(delpeer %s)" % e[1])
@@ -335,7 +405,7 @@ def sim_line(sc):
         elif k == "obs":
             steps.append("(obs)")
     opts = {"ibgp": "", "rr": " rr", "ebgp": ""}
-    peers_sx = " ".join("(%s %s %d%s)" % (p.name, p.addr, p.asn, opts[p.kind]) for p in sc["peers"])
+    peers_sx = " ".join("(%s %s %d%s%s)" % (p.name, p.addr, p.asn, opts[p.kind], " apsend=%d" % p.sendmax if p.sendmax else "") for p in sc["peers"])
     return "(sim (global %d %s sync) (peers %s) (steps %s))" % (LOCAL_AS, ROUTER_ID, peers_sx, " ".join(steps))
 
 
@@ -421,9 +491,11 @@ def canon_impl(sc, out):
             for e in o["adjin_raw"].get(name, []):
                 adj[e[0]] = (e[1], e[2])
             d["peers"][name] = {"up": up, "view": {k.split("#")[0]: v for k, v in pd.get("view", {}).items()} if up else None, "adjin": adj,
+                                "view_ids": {k: v for k, v in pd.get("view", {}).items()} if up else None,
                                 "counters": pd.get("counters"), "notifs": pd.get("notifs"), "closed": pd.get("closed")}
         for pf, paths in o["rib"].items():
             d["rib"][pf] = [(p["src"], p["attrs"]) for p in paths]
+            d.setdefault("lids", {})[pf] = [p["lid"] for p in paths]
             d.setdefault("best", {})[pf] = [i for i, p in enumerate(paths) if p["best"]]
         res.append(d)
     return res, markers
